@@ -14,6 +14,8 @@ def one(pair):
     name, prop = pair.split(":")
     patch = f"/tmp/seeded_out/{name}/patch.diff"
     if not os.path.exists(patch):
+        patch = f"/verif/refactors/{name}/patch.diff"
+    if not os.path.exists(patch):
         patch = f"/verif/seeded/{name}/patch.diff"
     wt = f"/tmp/wt/pm_{name}_{prop}"
     subprocess.run(["git", "-C", "/repo", "worktree", "remove", "--force", wt], capture_output=True)
